@@ -11,7 +11,7 @@
    EVERY document (four deviations found on the way were repaired).
    Path.Unmarshal / Path.Get and concurrent use are compared by the harness. *)
 From Coq Require Import NArith ZArith List Bool.
-From GJ Require Import Base.Bytes Spec.Json Model.Enc Model.Path Proofs.PathP Gen.PathShape Model.PathEval Proofs.PathEvalP.
+From GJ Require Import Base.Bytes Spec.Json Model.Enc Model.Path Proofs.PathP Gen.PathShape Model.PathEval Proofs.PathEvalP Model.PathText Proofs.PathTextP.
 Import ListNotations.
 Open Scope N_scope.
 
@@ -94,3 +94,18 @@ Example C20_ex5 :
   extract_text [36; 46; 98; 46; 99; 91; 42; 93; 46; 97] C20_doc = [79; 51; 10; 52; 10] /\
   extract_text [36; 91; 39; 98; 39; 93; 46; 99; 91; 49; 93; 46; 98; 91; 48; 93] C20_doc = [79; 53; 10].
 Proof. vm_compute. repeat split; reflexivity. Qed.
+
+(* ---- the text side (Model/PathText.v): the parts Extract hands out are windows of its copy of the document ---- *)
+(* map.go, as the translator read it: a key with an escape is unescaped in a copy, and none of the three walkers
+   decodes a string where it stands *)
+Theorem C20_walk_source_facts : path_keys_unescaped_in_a_copy = true.
+Proof. reflexivity. Qed.
+(* whatever the walk reads, however often (recursive descent passes over a part again after handing it out): when
+   Extract returns, every part is the text of the document in that window *)
+Theorem C20_parts_are_document_text : forall buf evs,
+  results (negb path_keys_unescaped_in_a_copy) buf evs = expected buf evs.
+Proof. rewrite C20_walk_source_facts. exact results_are_document_text. Qed.
+Print Assumptions C20_parts_are_document_text.
+(* the repaired defect: the key below a part already handed out, unescaped where it stands ($..a on {"a":{"k\ny":1}}) *)
+Theorem C20_unescaping_in_place_refuted : results true doc_ex walk_ex <> expected doc_ex walk_ex.
+Proof. exact in_place_refuted. Qed.
